@@ -11,14 +11,20 @@ type compositeParser struct {
 	underlyingParser     base.LogParser
 	extractionTransforms []base.LogTransformFunc
 	deallocator          *base.LogAllocator
+	inputCounter         *base.LogInputCounterSet
 }
 
 // newCompositeParser combines a parser and a set of extraction transforms that are executed immediately after parsing without additional goroutine
-func newCompositeParser(p base.LogParser, extractions []base.LogTransformFunc, deallocator *base.LogAllocator) base.LogParser {
+//
+// inputCounter must be the counter set given to the parser: a record dropped by the extraction transforms is moved from passed to dropped there
+func newCompositeParser(p base.LogParser, extractions []base.LogTransformFunc, deallocator *base.LogAllocator,
+	inputCounter *base.LogInputCounterSet,
+) base.LogParser {
 	return &compositeParser{
 		underlyingParser:     p,
 		extractionTransforms: extractions,
 		deallocator:          deallocator,
+		inputCounter:         inputCounter,
 	}
 }
 
@@ -29,8 +35,9 @@ func (cp *compositeParser) Parse(input []byte, timestamp time.Time) *base.LogRec
 		return nil
 	}
 	if bsupport.RunTransforms(record, cp.extractionTransforms) == base.DROP {
+		// the parser has counted the record as passed; it never reaches the receiver, so count it as dropped instead
+		cp.inputCounter.CountRecordPassToDrop(record)
 		cp.deallocator.Release(record)
-		// TODO: metrics
 		return nil
 	}
 	return record
